@@ -192,6 +192,10 @@ pub enum Case {
     RecvClient { shape: Shape, headers: Vec<WEnt>, trailers: Vec<WEnt>, outcome: RecvOutcome },
     /// request headers as a peer sends them -> generated server -> handler
     RecvServer { shape: Shape, headers: Vec<WEnt>, icpt: bool },
+    /// a real `Channel` (in-memory pipe) to a real tonic server: what the *whole* client stack puts on the wire.
+    /// `forge`: a client interceptor sets `user-agent`; `ua`: `Endpoint::user_agent` is configured; `ints`: the
+    /// caller attaches ASCII values built from integers and a binary value built from `Bytes`
+    OverChannel { forge: bool, ua: bool, ints: Vec<i64>, shared: crate::infra::blob::Blob, rt_seed: u64 },
 }
 
 // =====================================================================================================
@@ -319,12 +323,25 @@ pub fn strategy() -> BoxedStrategy<Case> {
     ];
     let recv_client = (shape(), recv_entries(4), recv_entries(4), outcome).prop_map(|(shape, headers, trailers, outcome)| Case::RecvClient { shape, headers, trailers, outcome });
     let recv_server = (shape(), recv_entries(5), proptest::bool::weighted(0.3)).prop_map(|(shape, headers, icpt)| Case::RecvServer { shape, headers, icpt });
+    let over_channel = (
+        any::<bool>(),
+        any::<bool>(),
+        proptest::collection::vec(prop_oneof![3 => Just(0i64), 2 => -20i64..=20, 1 => Just(i64::MIN), 1 => Just(i64::MAX), 1 => any::<i64>()], 0..=4),
+        // payloads that look like base64 text themselves, next to arbitrary ones
+        prop_oneof![
+            2 => "[A-Za-z0-9+/]{4}|[A-Za-z0-9+/]{8}|[A-Za-z0-9+/]{2}==|[A-Za-z0-9+/]{3}=".prop_map(|s| crate::infra::blob::Blob::of(s.as_bytes())),
+            2 => crate::infra::blob::small_bytes(16),
+        ],
+        any::<u64>(),
+    )
+        .prop_map(|(forge, ua, ints, shared, rt_seed)| Case::OverChannel { forge, ua, ints, shared, rt_seed });
     prop_oneof![
         20 => api_case(),
         1 => send_client,
         1 => send_server,
         1 => recv_client,
         1 => recv_server,
+        1 => over_channel,
     ]
     .boxed()
 }
@@ -1412,6 +1429,75 @@ fn run_send_client(shape: Shape, mdv: &[MdEntry], icpt: bool, o: &mut Outcome) -
     Ok(())
 }
 
+/// The whole client stack (generated client, optional interceptor, Channel with its user-agent / origin layers,
+/// hyper) against a real tonic server over the in-memory pipe; the handler's view of the request metadata.
+fn run_over_channel(forge: bool, ua: bool, ints: &[i64], shared: &[u8], rt_seed: u64, o: &mut Outcome) -> Result<(), Failure> {
+    use crate::infra::net::Net;
+    use crate::infra::rt;
+    use std::time::Duration;
+    o.label("over_a_real_channel");
+    o.label_if(forge, "interceptor_sets_user_agent");
+    o.label_if(ua, "endpoint_user_agent_configured");
+    o.label_if(ints.contains(&0), "ascii_value_from_integer_zero");
+    o.label_if(!shared.is_empty() && wire::b64_decode(shared).is_some(), "binary_payload_that_looks_like_base64");
+    o.nontrivial = forge || !ints.is_empty() || !shared.is_empty();
+    let sh = Shared::new(vec![HandlerScript { msgs: vec![RespMsg { data: crate::infra::blob::Blob::of(b"r"), pend: 0, delay_ms: 0 }], ..Default::default() }]);
+    let (net, incoming) = Net::new(vec![]);
+    let sh2 = sh.clone();
+    let (ints2, shared2) = (ints.to_vec(), shared.to_vec());
+    let res = rt::run_virtual(rt_seed, Duration::from_secs(3600), async move {
+        let router = tonic::transport::Server::builder().add_service(vt::raw_server::RawServer::new(sh2));
+        let srv = tokio::spawn(async move { router.serve_with_incoming(incoming).await });
+        let mut ep = tonic::transport::Endpoint::from_static("http://pipe.test");
+        if ua {
+            ep = ep.user_agent("my-app/1.2").map_err(|e| format!("user_agent: {e:?}"))?;
+        }
+        let ch = ep.connect_with_connector(net.connector()).await.map_err(|e| format!("connect: {e:?}"))?;
+        let mut req = Request::new(b"q".to_vec());
+        for i in &ints2 {
+            // ASCII values built from numbers (From<integer>), repeated under one key
+            req.metadata_mut().append("x-num", MetadataValue::from(*i));
+        }
+        // a binary value built from a shared buffer (TryFrom<Bytes>): the buffer is the payload, whatever it looks like
+        let v: MetadataValue<Binary> = MetadataValue::try_from(Bytes::from(shared2.clone())).map_err(|e| format!("try_from(Bytes): {e:?}"))?;
+        req.metadata_mut().insert_bin("x-shared-bin", v);
+        let r = if forge {
+            let f = |mut req: Request<()>| -> Result<Request<()>, Status> {
+                req.metadata_mut().insert("user-agent", MetadataValue::from_static("forged-agent/6.6"));
+                Ok(req)
+            };
+            vt::raw_client::RawClient::with_interceptor(ch, f).unary(req).await
+        } else {
+            vt::raw_client::RawClient::new(ch).unary(req).await
+        };
+        rt::quiesce().await;
+        srv.abort();
+        r.map(|_| ()).map_err(|s| format!("call: {s:?}"))
+    });
+    match res {
+        Err(_) => bail!("C08/call-stuck", "call over the in-memory channel did not finish"),
+        Ok(Err(e)) => bail!("C08/call-failed", "{e}"),
+        Ok(Ok(())) => {}
+    }
+    let log = sh.log.lock().unwrap();
+    ensure!(log.len() == 1, "C08/call-failed", "handler ran {} times", log.len());
+    let h = &log[0].metadata;
+    // ---- user-agent is tonic's own (optionally prefixed by Endpoint::user_agent), whatever an interceptor put there
+    let uas: Vec<String> = h.get_all("user-agent").iter().map(|v| String::from_utf8_lossy(v.as_bytes()).to_string()).collect();
+    ensure!(uas.len() == 1, "C08/protocol-header/request/user-agent", "handler saw user-agent values {uas:?}");
+    ensure!(!uas[0].contains("forged-agent"), "C08/reserved-name-forged/user-agent", "a user-agent entry set by a client interceptor reached the server: {:?}", uas[0]);
+    ensure!(uas[0].contains("tonic/"), "C08/protocol-header/request/user-agent", "user-agent {:?} lacks tonic's product token", uas[0]);
+    ensure!(!ua || uas[0].starts_with("my-app/1.2"), "C08/protocol-header/request/user-agent", "Endpoint::user_agent(\"my-app/1.2\") but the server saw {:?}", uas[0]);
+    // ---- numbers arrive as their decimal text, in order
+    let nums: Vec<String> = h.get_all("x-num").iter().map(|v| String::from_utf8_lossy(v.as_bytes()).to_string()).collect();
+    let want: Vec<String> = ints.iter().map(|i| i.to_string()).collect();
+    ensure!(nums == want, "C08/sent-value-altered/request/from-integer", "MetadataValue::from(integers {ints:?}) arrived as {nums:?}");
+    // ---- the shared buffer arrives as the same bytes
+    let got: Vec<Option<Vec<u8>>> = h.get_all("x-shared-bin").iter().map(|v| wire::b64_decode(v.as_bytes())).collect();
+    ensure!(got == vec![Some(shared.to_vec())], "C08/sent-binary-altered/request/from-shared-buffer", "binary value built from the buffer {} arrived as {:?}", hex(shared), h.get_all("x-shared-bin").iter().collect::<Vec<_>>());
+    Ok(())
+}
+
 fn run_send_server(shape: Shape, initial: &[MdEntry], status: &Option<(u8, Vec<MdEntry>)>, stream_item: bool, o: &mut Outcome) -> Result<(), Failure> {
     o.label("send_server_response");
     o.label(shape.label());
@@ -1729,6 +1815,7 @@ pub fn run(c: &Case, o: &mut Outcome) -> Result<(), Failure> {
         Case::SendServer { shape, initial, status, stream_item } => run_send_server(*shape, initial, status, *stream_item, o),
         Case::RecvClient { shape, headers, trailers, outcome } => run_recv_client(*shape, headers, trailers, outcome, o),
         Case::RecvServer { shape, headers, icpt } => run_recv_server(*shape, headers, *icpt, o),
+        Case::OverChannel { forge, ua, ints, shared, rt_seed } => run_over_channel(*forge, *ua, ints, &shared.bytes(), *rt_seed, o),
     }
 }
 
